@@ -1,6 +1,7 @@
 package main
 
 import (
+	"os"
 	"fmt"
 
 	"golang.org/x/tools/go/ssa"
@@ -52,6 +53,9 @@ func (w *Worker) run(fr *frame, blk, pred, stop *ssa.BasicBlock, rg *region, ski
 			case *ssa.If:
 				c := w.get(fr, ins.Cond).(*Term)
 				if v, ok := w.lookupKnown(c); ok {
+					if debugSites != nil {
+						fmt.Fprintf(os.Stderr, "if: known=%v at %s: %s\n", v, w.curPos(), c)
+					}
 					c = w.B.Bool(v)
 				}
 				if c.IsConst() {
